@@ -100,6 +100,12 @@ CHECKS = {
    technique="deterministic simulation: authoritative servers stamp the serving second into the data (host addresses, SOA serials) and sign on the spot with a fixed signature lifetime; whole chain and resolver over a simulated network on a fake clock spanning seconds to days",
    text="Seeded search over record/alias/NS/SOA TTLs around the 5 s floor and the 24 h cap, SOA minimum, signature lifetime, prefetch, RFC 8198, upstream latency, and 10-60 queries at gaps from 0.2 s to 30 h over a signed and an unsigned zone (hosts, in-zone and cross-zone aliases, NXDOMAIN and names below, NODATA). Every reply says how old its data is: a reply older than the smallest applicable lifetime, a TTL above the time remaining, a TTL that grows between hits of one entry, or older data after newer for one key is a violation. Sampling, not proof.",
    note="Ages are judged with 2 s of slack plus the configured upstream latency. The delegation lease is only bounded from above (max(5 s, smallest NS TTL on the chain)); its exact value is C08's. Monotonicity rules are applied to direct questions only. DNS64 composition is C20's. One open finding (first reply relays the authority's TTL unclamped) is listed in known_findings.json."),
+
+ "C03": dict(
+   level="exploration", design="§3 C03",
+   technique="deterministic simulation: a zone that answers every name with data computed from the question (lower-cased wire name, type, CD bit of the upstream query); confusable question families through both ingress paths (UDP engine wire path, Server.ServeMsg decoded path, canonical and \\DDD-escaped text); cache-key hash optionally narrowed to 3-10 bits so that distinct questions collide; purges",
+   text="Seeded search over question sequences whose members differ in one respect (letter case, a dot inside a label vs a label boundary, concatenated labels, octets 0x00/0x20/0xff/'*'/'\\\\', names below vs beside a denied name, type, CD), interleaved over the two ingress paths with purges, with full or narrowed cache keys. Every reply must carry the data of its own question: another name's, type's or CD partition's data, or a denial that belongs to another name, is a violation. Sampling, not proof.",
+   note="Key collisions are produced by masking the hash result through an import shim (verifxxhash) in internal/cache/key.go and key_wire.go; collision handling itself is the shipped code. Client-subnet scoping is C19's. The test zone is insecure, so RFC 8020 cuts and denial-proof reuse are not reached here."),
 }
 
 NOT_APPLICABLE = {
